@@ -713,8 +713,8 @@ class LeastSquare:
         numbtype = Fraction if (numbtype is int) else numbtype
         nptsinteg = olddegree + newdegree + 3  # Number integration points
         if numbtype is Fraction:
-            nodes0to1 = NodeSample.closed_linspace(nptsinteg)
-            integrator = IntegratorArray.closed_newton_cotes(nptsinteg)
+            nodes0to1 = NodeSample.open_linspace(nptsinteg)
+            integrator = IntegratorArray.open_newton_cotes(nptsinteg)
         else:
             nodes0to1 = NodeSample.chebyshev(nptsinteg)
             integrator = IntegratorArray.chebyshev(nptsinteg)
